@@ -20,7 +20,7 @@ from ..exec import xlib, callcheck, pyfront, drivers
 
 LEVEL = "exploration"
 
-BAD_REF_ROWS = ("B1out", "B1inout", "N3in", "N3out", "N3inout")
+BAD_REF_ROWS = ("B1out", "B1inout", "N3in", "N3out", "N3inout", "V1in")
 
 
 def sanitize(lib):
